@@ -3,10 +3,13 @@
    traced Leak current and stimulus conversion), the exact amplification factors of the
    backward-Euler and Crank-Nicolson steps, and explicit global error bounds of first order
    (backward Euler, all x = dt/tau >= 0) and second order (Crank-Nicolson, 1e-3 <= dt/tau <= 1)
-   against exp(-t/tau).  The second-order convergence in compartment length is TESTED on
-   refinement ladders against the analytic input resistance of a sealed cable. *)
+   against exp(-t/tau); the spatial CONSISTENCY of the axial term of a uniform cable (second
+   order, with the coupling conductance traced from the code and kappa = 1e7 r / (2 r_a)).  The
+   second-order CONVERGENCE of the solutions in compartment length is TESTED on refinement
+   ladders against the analytic input / transfer resistance of a sealed cable. *)
 From Coq Require Import Reals.
-From JV Require Import Prim RLemmas GCellUtils GChannels CableConservation ConvergenceFacts.
+From Coquelicot Require Import Coquelicot.
+From JV Require Import Prim RLemmas GCellUtils GChannels CableConservation ConvergenceFacts SpatialConsistency.
 Local Open Scope R_scope.
 
 (* one implicit step of a passive compartment contracts the distance to
@@ -32,6 +35,19 @@ Proof. exact cn_amplification. Qed.
 Theorem C15_crank_nicolson_second_order : forall x n, 1 / 1000 <= x <= 1 ->
   Rabs (((1 - x / 2) / (1 + x / 2)) ^ n - exp (- (INR n * x))) <= INR n * (x ^ 3 / 6).
 Proof. exact cn_second_order. Qed.
+
+(* spatial consistency: for equal compartments of length h the traced coupling conductance is
+   kappa / h^2, and the axial term of the code applied to the samples of any four times
+   differentiable V whose fourth derivative is bounded by M differs from kappa * V2 (V2 = second
+   derivative) by at most kappa * M * h^2 / 12 *)
+Theorem C15_uniform_coupling : forall r ra h, 0 < r -> 0 < ra -> 0 < h ->
+  coupling_cond__g r r ra ra h h = kappa r ra / h ^ 2.
+Proof. exact uniform_coupling. Qed.
+Theorem C15_axial_term_second_order_consistent : forall f x r ra h M,
+  0 < r -> 0 < ra -> 0 < h -> smooth4 f -> (forall t, Rabs (Derive_n f 4 t) <= M) ->
+  Rabs (coupling_cond__g r r ra ra h h * (f (x + h) - f x) + coupling_cond__g r r ra ra h h * (f (x - h) - f x)
+        - kappa r ra * Derive_n f 2 x) <= kappa r ra * (M * h ^ 2 / 12).
+Proof. exact axial_term_consistent. Qed.
 
 Example C15_nonvacuous : 1 / 1000 <= 1 / 40 <= 1.
 Proof. exact c15_example. Qed.
